@@ -293,6 +293,16 @@ func workerMain(t *testing.T, def *PropDef, out string) {
 		_ = p.Save(curFile)
 		_ = os.WriteFile(out+".idx", []byte(strconv.Itoa(i)), 0o644)
 		o := runPlan(t, def, p)
+		if tf := os.Getenv("DSIM_TRACE"); tf != "" {
+			sb, _ := json.Marshal(o.Sample)
+			f, _ := os.OpenFile(tf, os.O_APPEND|os.O_CREATE|os.O_WRONLY, 0o644)
+			fmt.Fprintf(f, "%d %d sig=%q sched=%x ev=%x steps=%d class=%x sample=%x detail=%x\n", i, seed, o.Sig, o.Sched, o.Stats.EvHash, o.Stats.Steps, hashString(o.Class), hashString(string(sb)), hashString(o.Detail))
+			f.Close()
+			if os.Getenv("DSIM_TRACE_PLANS") != "" {
+				_ = os.MkdirAll(tf+".plans", 0o755)
+				_ = p.Save(filepath.Join(tf+".plans", fmt.Sprintf("%d.json", i)))
+			}
+		}
 		res.Runs++
 		res.Profiles[p.Profile]++
 		res.Steps += o.Stats.Steps
@@ -333,6 +343,9 @@ func workerMain(t *testing.T, def *PropDef, out string) {
 			}
 			if !stable {
 				res.Unstable[o.Sig]++
+				up := *p
+				up.ExpectSig, up.Detail = o.Sig, o.Detail
+				_ = up.Save(filepath.Join(outDir, fmt.Sprintf("unstable-%016x.json", hashString(o.Sig))))
 				if def.FlakySig != "" {
 					o.Sig = def.FlakySig
 				} else {
